@@ -58,30 +58,33 @@ fn reply_matches(model: &R, seen: &R) -> bool {
 #[derive(Debug, Clone)]
 pub struct HOp { pub inv: u64, pub ret: Option<u64>, pub op: KOp, pub reply: Option<R>, pub who: usize, pub label: String }
 
-/// Is there a linearization of `ops` (<= 30) starting from `init`? Pending operations (ret = None)
-/// may take effect at any point after their invocation, or never.
-pub fn linearizable(init: &KState, ops: &[HOp]) -> bool {
+/// Is there a linearization of `ops` (<= 60) starting from `init`? Pending operations (ret = None)
+/// may take effect at any point after their invocation, or never. `None` = the search gave up
+/// (more than `budget` distinct (set, state) pairs visited): no verdict.
+pub fn linearizable_within(init: &KState, ops: &[HOp], budget: usize) -> Option<bool> {
     let n = ops.len();
-    assert!(n <= 30, "history too long for the checker");
-    let full: u32 = if n == 32 { u32::MAX } else { (1u32 << n) - 1 };
-    let must: u32 = ops.iter().enumerate().filter(|(_, o)| o.ret.is_some()).fold(0, |m, (i, _)| m | (1 << i));
-    let mut seen: HashSet<(u32, KState)> = HashSet::new();
-    fn go(ops: &[HOp], done: u32, st: &KState, must: u32, full: u32, seen: &mut HashSet<(u32, KState)>) -> bool {
-        if done & must == must { return true; }
-        if !seen.insert((done, st.clone())) { return false; }
+    assert!(n <= 60, "history too long for the checker");
+    let must: u64 = ops.iter().enumerate().filter(|(_, o)| o.ret.is_some()).fold(0, |m, (i, _)| m | (1u64 << i));
+    let mut seen: HashSet<(u64, KState)> = HashSet::new();
+    fn go(ops: &[HOp], done: u64, st: &KState, must: u64, seen: &mut HashSet<(u64, KState)>, budget: usize) -> Option<bool> {
+        if done & must == must { return Some(true); }
+        if seen.len() >= budget { return None; }
+        if !seen.insert((done, st.clone())) { return Some(false); }
         // minimal return time among not-yet-linearized completed ops: an op may go next only if it
         // was invoked before that instant
         let mut min_ret = u64::MAX;
-        for (i, o) in ops.iter().enumerate() { if done & (1 << i) == 0 { if let Some(r) = o.ret { min_ret = min_ret.min(r); } } }
+        for (i, o) in ops.iter().enumerate() { if done & (1u64 << i) == 0 { if let Some(r) = o.ret { min_ret = min_ret.min(r); } } }
         for (i, o) in ops.iter().enumerate() {
-            if done & (1 << i) != 0 { continue; }
+            if done & (1u64 << i) != 0 { continue; }
             if o.inv > min_ret { continue; }
             let (ns, rep) = apply(st, &o.op);
             let ok = match &o.reply { Some(r) if o.ret.is_some() => reply_matches(&rep, r), _ => true };
-            if ok && go(ops, done | (1 << i), &ns, must, full, seen) { return true; }
+            if ok {
+                match go(ops, done | (1u64 << i), &ns, must, seen, budget) { Some(true) => return Some(true), None => return None, Some(false) => {} }
+            }
         }
-        let _ = full;
-        false
+        Some(false)
     }
-    go(ops, 0, init, must, full, &mut seen)
+    go(ops, 0, init, must, &mut seen, budget)
 }
+pub fn linearizable(init: &KState, ops: &[HOp]) -> bool { linearizable_within(init, ops, usize::MAX).unwrap_or(true) }
